@@ -10,7 +10,7 @@ from vlib.harness import Sub, Violation, call, require, target, value
 PROPERTY_ID = 'C03'
 LEVEL = 'exploration'
 RULE = ('sample recipe (normal, lognormal, bimodal, uniform, integer ties, heavy-tailed t2, exponential, beta; n 5..2000, '
-        'location +-1e3, scale 10^U(-6,3); or a constant sample) x model class with options (GaussianKDE bandwidth '
+        'location +-1e3, scale 10^U(-9,3); or a constant sample) x model class with options (GaussianKDE bandwidth '
         'scott/silverman/factor in (0.05,1], sample_size; TruncatedGaussian with/without enclosing user bounds; Univariate '
         'with candidate lists / parametric+bounded filters; every scipy-backed family) x evaluation points (training '
         'quantiles, far outside, +-inf) x probabilities (uniform, within 10^-k of 0/1 for k<=12, exact 0/1). Oracle: the '
@@ -32,7 +32,7 @@ SHAPES = ['normal', 'lognormal', 'bimodal', 'uniform', 'ties', 'heavy', 'expo', 
 def data_strategy(nmax=2000):
     return st.fixed_dictionaries({
         'shape': st.sampled_from(SHAPES), 'n': st.one_of(st.integers(5, 60), st.integers(5, nmax)), 'seed': S.SEEDS,
-        'loc': st.one_of(st.floats(-1000, 1000), st.sampled_from([0.0, 0.0, 1000.0])), 'scale_exp': st.one_of(st.floats(-2, 3), st.floats(-6, 3)),
+        'loc': st.one_of(st.floats(-1000, 1000), st.sampled_from([0.0, 0.0, 1000.0])), 'scale_exp': st.one_of(st.floats(-2, 3), st.floats(-6, 3), st.floats(-9, -5)),
     })
 
 
@@ -59,7 +59,8 @@ def make_data(spec):
         x = rs.exponential(size=n)
     else:
         x = rs.beta(0.7, 2.5, size=n)
-    return spec['loc'] + 10.0 ** spec['scale_exp'] * x
+    loc = spec['loc'] if spec['scale_exp'] >= -6 else spec['loc'] * 10.0 ** (spec['scale_exp'] + 6)     # keep |loc|/scale <= 1e9
+    return loc + 10.0 ** spec['scale_exp'] * x
 
 
 def model_strategy():
